@@ -194,33 +194,307 @@ theorem opLock_cons (x : Rid) (db : DB) (c : Cmd) (hk : KN db) :
   | updateEqual h' => simp only [applyLock]; rw [answered_mk x _ _ _ _ (by decide)]
   | update h' =>
     simp only [applyLock]
-    rw [answered_mk x _ _ _ _ (by decide), store_cons x db c.key hk (updateHold_db_keys _ _ _) (getKey_key _ _)]
-    simp only []; omega
+    rw [answered_mk x _ _ _ _ (by decide), store_cons x db c.key hk]
+    · simp only []; omega
+    · exact updateHold_db_keys _ _ _
+    · exact getKey_key _ _
   | relock h' =>
     simp only [applyLock]
-    rw [answered_mk x _ _ _ _ (by decide), store_cons x db c.key hk (by simp [updateHold_db_keys]) (getKey_key _ _)]
-    simp only []; omega
+    rw [answered_mk x _ _ _ _ (by decide), store_cons x db c.key hk]
+    · simp only []; omega
+    · simp [updateHold_db_keys]
+    · exact getKey_key _ _
   | grant =>
     simp only [applyLock]
     obtain ⟨_, _, _, _, _, hws, _, hkey⟩ := grantHold_holders db (db.getKey c.key) c
     split
-    · rw [wake_store x db c.key _ hk (grantHold_db_keys _ _ _) (by rw [hkey, getKey_key]), answered_mk x c _ _ _ (by decide), hws]
-      omega
-    · rw [answered_mk x c _ _ _ (by decide), store_cons x db c.key hk (grantHold_db_keys db (db.getKey c.key) c) (by rw [hkey, getKey_key]), hws]
-      omega
+    · rw [wake_store x db c.key _ hk, answered_mk x c _ _ _ (by decide), hws]
+      · omega
+      · exact grantHold_db_keys _ _ _
+      · rw [hkey, getKey_key]
+    · rw [answered_mk x c _ _ _ (by decide), store_cons x db c.key hk, hws]
+      · omega
+      · exact grantHold_db_keys db (db.getKey c.key) c
+      · rw [hkey, getKey_key]
   | grantNoHold =>
     simp only [applyLock]
     split
-    · rw [wake_store x db c.key _ hk rfl (getKey_key _ _), answered_mk x c _ _ _ (by decide)]
-      omega
-    · rw [answered_mk x c _ _ _ (by decide), store_cons x db c.key hk rfl (getKey_key _ _)]
-      omega
+    · rw [wake_store x db c.key _ hk, answered_mk x c _ _ _ (by decide)]
+      · omega
+      · rfl
+      · exact getKey_key _ _
+    · rw [answered_mk x c _ _ _ (by decide), store_cons x db c.key hk]
+      · simp only []; omega
+      · rfl
+      · exact getKey_key _ _
   | queue =>
     simp only [applyLock]
-    rw [store_cons x db c.key hk rfl (getKey_key _ _)]
-    simp only [qW_insert, answered_nil]
-    have : (Waiter.rid { cmd := c, conn := c.conn, timeoutT := (wheelAdd db.tCheck db.seq (timeoutDeadline db.now c) 1).1,
-        sched := (wheelAdd db.tCheck db.seq (timeoutDeadline db.now c) 1).2 }) = (c.conn, c.req) := rfl
-    rw [this]; omega
+    rw [store_cons x db c.key hk]
+    · simp only [qW_insert, answered_nil]
+      have h : ∀ w : Waiter, w.cmd = c → w.conn = c.conn → hit x w.rid = hit x (c.conn, c.req) := by
+        intro w h1 h2; unfold Waiter.rid; rw [h1, h2]
+      rw [h _ rfl rfl]; omega
+    · rfl
+    · exact getKey_key _ _
+
+/-- UNLOCK: its own id is answered once; a cancelled waiter's id moves from the queue to the replies. -/
+theorem opUnlock_cons (x : Rid) (db : DB) (c : Cmd) (hk : KN db) :
+    answered x (opUnlock db c).2 + queued x (opUnlock db c).1.keys = hit x (c.conn, c.req) + queued x db.keys := by
+  unfold opUnlock
+  cases hb : classifyUnlock db c with
+  | stateError | notLocked | unown | cancelNone =>
+    simp only [applyUnlock, bumpErr]; rw [answered_mk x c _ _ _ (by decide)]
+  | cancel w =>
+    have hm := classifyUnlock_cancel_mem db c w hb
+    simp only [applyUnlock]
+    rw [store_cons x db c.key hk]
+    · have h1 : answered x [mkReply c RESULT_LOCKED_ERROR (db.getKey c.key).locked 0,
+          mkReply { w.cmd with conn := w.conn } RESULT_UNLOCK_ERROR (db.getKey c.key).locked 0]
+          = hit x (c.conn, c.req) + hit x w.rid := by
+        rw [show [mkReply c RESULT_LOCKED_ERROR (db.getKey c.key).locked 0,
+              mkReply { w.cmd with conn := w.conn } RESULT_UNLOCK_ERROR (db.getKey c.key).locked 0]
+            = [mkReply c RESULT_LOCKED_ERROR (db.getKey c.key).locked 0] ++
+              [mkReply { w.cmd with conn := w.conn } RESULT_UNLOCK_ERROR (db.getKey c.key).locked 0] from rfl,
+          answered_append, answered_mk x c _ _ _ (by decide), answered_mk x _ _ _ _ (by decide)]
+        rfl
+      rw [h1]
+      have := qW_remove x hm
+      simp only []; omega
+    · rfl
+    · exact getKey_key _ _
+  | dec h' c' =>
+    simp only [applyUnlock]
+    have hc : (c'.conn, c'.req) = (c.conn, c.req) := by
+      unfold classifyUnlock at hb
+      simp only [] at hb
+      repeat' split at hb
+      all_goals (try (simp at hb))
+      all_goals (first | (obtain ⟨_, h2⟩ := hb; subst h2; rfl) | skip)
+    rw [wake_store x db c.key _ hk, answered_mk x c' _ _ _ (by decide), hc]
+    · simp only []; omega
+    · rfl
+    · exact getKey_key _ _
+  | release h' c' =>
+    simp only [applyUnlock]
+    have hc : (c'.conn, c'.req) = (c.conn, c.req) := by
+      unfold classifyUnlock at hb
+      simp only [] at hb
+      repeat' split at hb
+      all_goals (try (simp at hb))
+      all_goals (first | (obtain ⟨_, h2⟩ := hb; subst h2; rfl) | skip)
+    rw [wake_store x db c.key _ hk, answered_mk x c' _ _ _ (by decide), hc]
+    · simp only []; omega
+    · rfl
+    · exact getKey_key _ _
+
+theorem fireTimeout_cons (x : Rid) (db : DB) (key : Nat) (w : Waiter) (hm : w ∈ (db.getKey key).waiters) (hk : KN db) :
+    answered x (fireTimeout db key w).2 + queued x (fireTimeout db key w).1.keys = queued x db.keys := by
+  unfold fireTimeout
+  simp only []
+  rw [store_cons x db key hk, answered_mk x _ _ _ _ (by decide)]
+  · have := qW_remove x hm
+    simp only []
+    have hr : hit x ((({ w.cmd with conn := w.conn } : Cmd).conn), ({ w.cmd with conn := w.conn } : Cmd).req) = hit x w.rid := rfl
+    rw [hr]; omega
+  · rfl
+  · exact getKey_key _ _
+
+theorem fireExpire_cons (x : Rid) (db : DB) (key : Nat) (h : Hold) (hk : KN db) :
+    answered x (fireExpire db key h).2 + queued x (fireExpire db key h).1.keys = queued x db.keys := by
+  unfold fireExpire
+  simp only []
+  rw [wake_store x db key _ hk, answered_mk_expried]
+  · simp only []; omega
+  · rfl
+  · exact getKey_key _ _
+
+theorem qW_map_same (x : Rid) (ws : List Waiter) (f : Waiter → Waiter) (hf : ∀ w ∈ ws, (f w).rid = w.rid) :
+    qW x (ws.map f) = qW x ws := by
+  unfold qW
+  induction ws with
+  | nil => rfl
+  | cons y ys ih =>
+    have h1 := hf y (by simp)
+    have h2 := ih (fun w hw => hf w (List.mem_cons_of_mem _ hw))
+    simp only [List.map_cons, List.count_cons, h1]
+    simp only [List.map_map] at h2 ⊢
+    omega
+
+theorem updateWaiter_cons (x : Rid) (db : DB) (w w' : Waiter) (hr : w'.rid = w.rid) (hk : KN db) :
+    queued x (updateWaiter db w w').keys = queued x db.keys := by
+  unfold updateWaiter
+  simp only []
+  rw [store_cons x db w.cmd.key hk]
+  · simp only []
+    rw [qW_map_same]
+    · omega
+    · intro y _
+      split
+      · rename_i hmatch
+        simp only [Bool.and_eq_true, beq_iff_eq] at hmatch
+        rw [hr]; unfold Waiter.rid; rw [hmatch.1, hmatch.2]
+      · rfl
+  · rfl
+  · exact getKey_key _ _
+
+theorem updateHoldIn_cons (x : Rid) (db : DB) (h h' : Hold) (hk : KN db) :
+    queued x (updateHoldIn db h h').keys = queued x db.keys := by
+  unfold updateHoldIn
+  simp only []
+  rw [store_cons x db h.cmd.key hk]
+  · simp only []; omega
+  · rfl
+  · exact getKey_key _ _
+
+/-- invariant carried through the sweeps: distinct key ids + conservation relative to a fixed total -/
+def ConsAt (x : Rid) (total : Int) (acc : DB × List Reply) : Prop :=
+  KN acc.1 ∧ answered x acc.2 + queued x acc.1.keys = total
+
+theorem KN_fireTimeout (db : DB) (key : Nat) (w : Waiter) (h : KN db) : KN (fireTimeout db key w).1 := by
+  unfold fireTimeout; exact KN_setKey (h.of_keys_eq rfl) _
+
+theorem KN_fireExpire (db : DB) (key : Nat) (hd : Hold) (h : KN db) : KN (fireExpire db key hd).1 := by
+  unfold fireExpire; exact KN_setKey (h.of_keys_eq (by rw [wake_keys])) _
+
+theorem fireTimeoutStep_consAt (x : Rid) (total : Int) (acc : DB × List Reply) (w : Waiter) (h : ConsAt x total acc) :
+    ConsAt x total (fireTimeoutStep acc w) := by
+  unfold fireTimeoutStep
+  split
+  · rename_i w' hf
+    refine ⟨KN_fireTimeout _ _ _ h.1, ?_⟩
+    have := fireTimeout_cons x acc.1 w.cmd.key w' (List.mem_of_find?_eq_some hf) h.1
+    simp only [answered_append]
+    have h2 := h.2
+    omega
+  · exact h
+
+theorem fireExpireStep_consAt (x : Rid) (total : Int) (acc : DB × List Reply) (hd : Hold) (h : ConsAt x total acc) :
+    ConsAt x total (fireExpireStep acc hd) := by
+  unfold fireExpireStep
+  split
+  · rename_i h' hf
+    refine ⟨KN_fireExpire _ _ _ h.1, ?_⟩
+    have := fireExpire_cons x acc.1 hd.cmd.key h' h.1
+    simp only [answered_append]
+    have h2 := h.2
+    omega
+  · exact h
+
+/-- pass 1 keeps the queued ids (re-arming replaces a request by a copy with the same id) -/
+def QAt (x : Rid) (q : Int) (db : DB) : Prop := KN db ∧ queued x db.keys = q
+
+theorem rearmWaiter_eq (db : DB) (w : Waiter) :
+    rearmWaiter db w = updateWaiter { db with seq := db.seq + 1 } w (rearmed db w) := rfl
+
+def rearmedH (db : DB) (h : Hold) : Hold :=
+  { h with expT := (wheelAdd db.eCheck db.seq h.expT (h.sched.checked + 1)).1,
+           sched := (wheelAdd db.eCheck db.seq h.expT (h.sched.checked + 1)).2 }
+
+theorem rearmHold_eq (db : DB) (h : Hold) :
+    rearmHold db h = updateHoldIn { db with seq := db.seq + 1 } h (rearmedH db h) := rfl
+
+theorem KN_updateWaiter (db : DB) (w w' : Waiter) (h : KN db) : KN (updateWaiter db w w') := by
+  unfold updateWaiter; exact KN_setKey h _
+
+theorem KN_updateHoldIn (db : DB) (hd hd' : Hold) (h : KN db) : KN (updateHoldIn db hd hd') := by
+  unfold updateHoldIn; exact KN_setKey h _
+
+theorem rearmWaiter_qAt (x : Rid) (q : Int) (db : DB) (w : Waiter) (h : QAt x q db) : QAt x q (rearmWaiter db w) := by
+  rw [rearmWaiter_eq]
+  have hk' : KN { db with seq := db.seq + 1 } := h.1.of_keys_eq rfl
+  refine ⟨KN_updateWaiter _ _ _ hk', ?_⟩
+  have e := updateWaiter_cons x { db with seq := db.seq + 1 } w (rearmed db w) rfl hk'
+  rw [e]; exact h.2
+
+theorem rearmHold_qAt (x : Rid) (q : Int) (db : DB) (hd : Hold) (h : QAt x q db) : QAt x q (rearmHold db hd) := by
+  rw [rearmHold_eq]
+  have hk' : KN { db with seq := db.seq + 1 } := h.1.of_keys_eq rfl
+  refine ⟨KN_updateHoldIn _ _ _ hk', ?_⟩
+  have e := updateHoldIn_cons x { db with seq := db.seq + 1 } hd (rearmedH db hd) hk'
+  rw [e]; exact h.2
+
+theorem timeoutStep_qAt (x : Rid) (q : Int) (acc : DB × List Waiter) (w : Waiter) (h : QAt x q acc.1) : QAt x q (timeoutStep acc w).1 := by
+  unfold timeoutStep
+  split
+  · exact rearmWaiter_qAt x q _ _ h
+  · exact h
+
+theorem expireStep_qAt (x : Rid) (q : Int) (acc : DB × List Hold) (hd : Hold) (h : QAt x q acc.1) : QAt x q (expireStep acc hd).1 := by
+  unfold expireStep
+  split
+  · exact rearmHold_qAt x q _ _ h
+  · exact h
+
+theorem foldl_acc {α β} (P : DB × β → Prop) (f : DB × β → α → DB × β) (hf : ∀ acc a, P acc → P (f acc a))
+    (l : List α) (acc : DB × β) (h : P acc) : P (l.foldl f acc) := by
+  induction l generalizing acc with
+  | nil => exact h
+  | cons a as ih => simp only [List.foldl_cons]; exact ih _ (hf acc a h)
+
+theorem sweepTimeout_cons (x : Rid) (db : DB) (c : Nat) (hk : KN db) :
+    KN (sweepTimeout db c).1 ∧ answered x (sweepTimeout db c).2 + queued x (sweepTimeout db c).1.keys = queued x db.keys := by
+  unfold sweepTimeout timeoutPass1
+  simp only []
+  have q1 := foldl_P (QAt x (queued x db.keys)) timeoutStep (timeoutStep_qAt x _) (slotWaiters db c) (db, []) ⟨hk, rfl⟩
+  have c1 := foldl_acc (ConsAt x (queued x db.keys)) fireTimeoutStep (fireTimeoutStep_consAt x _)
+    (((slotWaiters db c).foldl timeoutStep (db, [])).2 ++ longWaiters db c)
+    (((slotWaiters db c).foldl timeoutStep (db, [])).1, [])
+    ⟨q1.1, by have := q1.2; simp only [answered_nil]; omega⟩
+  exact c1
+
+theorem sweepExpire_cons (x : Rid) (db : DB) (c : Nat) (hk : KN db) :
+    KN (sweepExpire db c).1 ∧ answered x (sweepExpire db c).2 + queued x (sweepExpire db c).1.keys = queued x db.keys := by
+  unfold sweepExpire expirePass1
+  simp only []
+  have q1 := foldl_P (QAt x (queued x db.keys)) expireStep (expireStep_qAt x _) (slotHolds db c) (db, []) ⟨hk, rfl⟩
+  have c1 := foldl_acc (ConsAt x (queued x db.keys)) fireExpireStep (fireExpireStep_consAt x _)
+    (((slotHolds db c).foldl expireStep (db, [])).2 ++ longHolds db c)
+    (((slotHolds db c).foldl expireStep (db, [])).1, [])
+    ⟨q1.1, by have := q1.2; simp only [answered_nil]; omega⟩
+  exact c1
+
+theorem cons_compose (x : Rid) (q0 : Int) (db1 db1' db2 : DB) (o1 o2 : List Reply)
+    (h1 : answered x o1 + queued x db1.keys = q0) (e : db1'.keys = db1.keys)
+    (h2 : answered x o2 + queued x db2.keys = queued x db1'.keys) :
+    answered x (o1 ++ o2) + queued x db2.keys = q0 := by
+  rw [answered_append]
+  have : queued x db1'.keys = queued x db1.keys := by rw [e]
+  omega
+
+/-- one second of server time: every request answered by a sweep (TIMEOUT, or SUCCED from a wake pass after an expiry)
+leaves the queue exactly once -/
+theorem opTick_cons (x : Rid) (db : DB) (hk : KN db) :
+    KN (opTick db).1 ∧ answered x (opTick db).2 + queued x (opTick db).1.keys = queued x db.keys := by
+  unfold opTick
+  simp only []
+  have h1 := sweepTimeout_cons x { db with now := db.now + 1, tCheck := db.now + 1 + 1 } (db.now + 1) (hk.of_keys_eq rfl)
+  have h2 := sweepExpire_cons x
+    { (sweepTimeout { db with now := db.now + 1, tCheck := db.now + 1 + 1 } (db.now + 1)).1 with eCheck := db.now + 1 + 1 }
+    (db.now + 1) (h1.1.of_keys_eq rfl)
+  exact ⟨h2.1, cons_compose x _ _ _ _ _ _ h1.2 rfl h2.2⟩
+
+theorem KN_wake_store {db0 db : DB} (k : Key) (out : List Reply) (h : KN db0) (e : db.keys = db0.keys) :
+    KN ((wake db k out).1.setKey (wake db k out).2.1) :=
+  KN_setKey (h.of_keys_eq (by rw [wake_keys, e])) _
+
+theorem opLock_cinv_kn (db : DB) (c : Cmd) (h : KN db) : KN (opLock db c).1 := by
+  unfold opLock
+  cases hb : classifyLock db c <;> simp only [applyLock] <;> (try exact h)
+  · exact KN_setKey (h.of_keys_eq (updateHold_db_keys _ _ _)) _
+  · exact KN_setKey (h.of_keys_eq (by simp [updateHold_db_keys])) _
+  · split
+    · exact KN_wake_store _ _ h (grantHold_db_keys _ _ _)
+    · exact KN_setKey (h.of_keys_eq (grantHold_db_keys db (db.getKey c.key) c)) _
+  · split
+    · exact KN_wake_store _ _ h rfl
+    · exact KN_setKey (h.of_keys_eq rfl) _
+  · exact KN_setKey (h.of_keys_eq rfl) _
+
+theorem opUnlock_kn (db : DB) (c : Cmd) (h : KN db) : KN (opUnlock db c).1 := by
+  unfold opUnlock
+  cases hb : classifyUnlock db c <;> simp only [applyUnlock, bumpErr] <;> (try exact h.of_keys_eq rfl)
+  · exact KN_setKey (h.of_keys_eq rfl) _
+  · exact KN_wake_store _ _ h rfl
+  · exact KN_wake_store _ _ h rfl
 
 end Slock.Engine
